@@ -70,3 +70,9 @@ def c16_view_reverse_detaches_moveless_subpath(case, od):
     if len(sig) < 2 or sig[0] not in ("sub", "stale") or sig[1] != "implicit-start":
         return False
     return _has_moveless_subpath(case.get("cmds", []))
+
+
+@predicate
+def c20_arc_radii_six_digits(case, od):
+    sig = od.get("sig") or []
+    return len(sig) >= 3 and sig[0] == "geometry" and sig[1] == "Path" and sig[2] == "Arc-shape-six-digit-radii"
